@@ -327,8 +327,10 @@ func cmdCheck(args []string) int {
 			fmt.Fprintln(os.Stderr, err)
 			return 2
 		}
-		bk := batchKey{f.Job.Loaded.Module, f.Job.Pkg}
-		batches[bk] = append(batches[bk], ts)
+		if !strings.HasPrefix(f.Msg, "data race:") {
+			bk := batchKey{f.Job.Loaded.Module, f.Job.Pkg}
+			batches[bk] = append(batches[bk], ts)
+		}
 		reported = append(reported, f)
 	}
 	native := map[string]NativeResult{}
@@ -362,6 +364,21 @@ func cmdCheck(args []string) int {
 	violations := 0
 	knownSeen := map[string]string{}
 	for _, f := range reported {
+		if strings.HasPrefix(f.Msg, "data race:") {
+			// cannot be reproduced by a forced schedule (the baton orders
+			// everything): confirmed by the Go race detector on free-running threads
+			ok, excerpt, err := raceReplay(f.Job.Loaded, f.Job.Pkg, TapeSpec{Harness: f.Job.Func, Args: f.Job.Args, Tape: f.Inputs, Path: f.TapePath}, f.Msg, scratch)
+			if err != nil {
+				fmt.Printf("BROKEN: race replay failed for %s: %v\n", f.Job.Name(), err)
+				broken = true
+				continue
+			}
+			if !ok {
+				discrepancies = append(discrepancies, fmt.Sprintf("data race not confirmed by the Go race detector: %s (%s) tape=%s detector: %s", f.Job.Name(), trunc(f.Msg, 300), f.TapePath, excerpt))
+				continue
+			}
+			native[f.TapePath] = NativeResult{Outcome: f.Outcome, Msg: "go test -race (free-running threads): " + excerpt}
+		}
 		nr, ok := native[f.TapePath]
 		if !ok {
 			discrepancies = append(discrepancies, "no native result for "+f.TapePath)
